@@ -68,6 +68,9 @@ pub enum EKind {
     /// symlink to the `target`-th entry created so far (relative target when possible and `rel`)
     Link { target: u16, rel: bool },
     Fifo,
+    /// 0 a socket, 1 a character device (1,3), 2 a block device (7,0) made with mknod; devices need
+    /// privilege - where mknod is refused the entry is left out
+    Special(u8),
     /// a directory with `count` generated children: names are a 4-digit index padded to a
     /// length that varies with the index (`len_a + i*len_step`, folded into 4..=255); every
     /// 7th a directory, every 11th a symlink to the previous entry, every 13th a fifo when `mixed`
@@ -213,6 +216,17 @@ pub fn build(root_abs: &[u8], entries: &[Entry], max_many: usize) {
             }
             EKind::Fifo => {
                 if mkfifo(&p) {
+                    all.push(me);
+                }
+            }
+            EKind::Special(k) => {
+                let (mode, dev) = match k % 3 {
+                    0 => (libc::S_IFSOCK | 0o600, 0),
+                    1 => (libc::S_IFCHR | 0o600, libc::makedev(1, 3)),
+                    _ => (libc::S_IFBLK | 0o600, libc::makedev(7, 0)),
+                };
+                let c = std::ffi::CString::new(p.clone()).unwrap();
+                if unsafe { libc::mknod(c.as_ptr(), mode, dev) } == 0 {
                     all.push(me);
                 }
             }
